@@ -331,6 +331,7 @@ impl Check for C02 {
         vec![
             Phase { name: "carriers of every type with independently styled protected headers at every position (nesting <= 3)", cases: scale(if q { 96000 } else { 500000 }, b), exhaustive: false },
             Phase { name: "the five empty-header forms (40, 41a0, 42bfff, 42b800, built-canonical) x every position class", cases: 12 * 5, exhaustive: true },
+            Phase { name: "the same header content at every position of a carrier, each position in its own encoding (equal views, different bytes)", cases: scale(if q { 4000 } else { 100000 }, b), exhaustive: false },
         ]
     }
     fn run_case(&self, ctx: &mut Ctx, phase: usize, idx: u64) {
@@ -341,6 +342,12 @@ impl Check for C02 {
                 let v = gen::gen_mval(&mut ctx.rng, ty, &o);
                 c02_case(ctx, ty, &v);
                 ctx.sample(|| J::obj(vec![("type", J::Str(ty.name())), ("positions", J::Arr(model::prot_positions(&v).iter().take(6).map(|(p, b)| J::Str(format!("{} = {}", p, b.as_ref().map(|x| hex(x)).unwrap_or_default()))).collect())), ("outcome", J::s("retained, re-emitted and placed into structures bit for bit"))]));
+            }
+            2 => {
+                let mut v = gen::gen_mval(&mut ctx.rng, ty, &o);
+                let h = gen::gen_header(&mut ctx.rng, &GenOpts { styled_prot: 0, built: false, max_depth: 1 }, 1);
+                force_same_content(ctx, &mut v, &h);
+                c02_case(ctx, ty, &v);
             }
             _ => {
                 let form = idx / 12;
@@ -443,6 +450,49 @@ fn force_empty(v: &mut MVal, bytes: &[u8]) {
         MVal::Recipient(x) => r(x, bytes),
         MVal::SuppPub(s) => p(&mut s.prot, bytes),
         MVal::Kdf(k) => p(&mut k.supp.prot, bytes),
+        _ => {}
+    }
+}
+
+/// every protected header of the value gets the content `h`, each in a freshly styled encoding
+fn force_same_content(ctx: &mut Ctx, v: &mut MVal, h: &crate::model::MHeader) {
+    use crate::model::*;
+    fn p(ctx: &mut Ctx, p: &mut MProt, h: &MHeader) {
+        p.header = h.clone();
+        p.bytes = Some(if h.is_empty() { [vec![], vec![0xa0], vec![0xbf, 0xff]][ctx.rng.below(3)].clone() } else { gen::prot_bytes(&mut ctx.rng, h, 230) });
+    }
+    fn r(ctx: &mut Ctx, x: &mut MRecipient, h: &MHeader) {
+        p(ctx, &mut x.prot, h);
+        for y in x.recipients.iter_mut() {
+            r(ctx, y, h);
+        }
+    }
+    match v {
+        MVal::Signature(s) => p(ctx, &mut s.prot, h),
+        MVal::Sign(s) => {
+            p(ctx, &mut s.prot, h);
+            for x in s.sigs.iter_mut() {
+                p(ctx, &mut x.prot, h);
+            }
+        }
+        MVal::Sign1(s) => p(ctx, &mut s.prot, h),
+        MVal::Mac(s) => {
+            p(ctx, &mut s.prot, h);
+            for x in s.recipients.iter_mut() {
+                r(ctx, x, h);
+            }
+        }
+        MVal::Mac0(s) => p(ctx, &mut s.prot, h),
+        MVal::Encrypt(s) => {
+            p(ctx, &mut s.prot, h);
+            for x in s.recipients.iter_mut() {
+                r(ctx, x, h);
+            }
+        }
+        MVal::Encrypt0(s) => p(ctx, &mut s.prot, h),
+        MVal::Recipient(x) => r(ctx, x, h),
+        MVal::SuppPub(s) => p(ctx, &mut s.prot, h),
+        MVal::Kdf(k) => p(ctx, &mut k.supp.prot, h),
         _ => {}
     }
 }
